@@ -16,8 +16,11 @@ from pathlib import Path
 from typing import Any, Callable, Iterable
 
 ROOT = Path(__file__).resolve().parent.parent
-EVIDENCE_DIR = ROOT / "evidence"
-REPLAY_DIR = ROOT / "replays"
+# VERIF_OUT redirects evidence and replay files (used when a check is run against a mutated scratch copy of the
+# sources, so that the committed evidence of the real tree is never overwritten by such a run)
+_OUT = Path(os.environ["VERIF_OUT"]) if os.environ.get("VERIF_OUT") else ROOT
+EVIDENCE_DIR = _OUT / "evidence"
+REPLAY_DIR = _OUT / "replays"
 KNOWN_FINDINGS = ROOT / "known_findings.json"
 
 
@@ -229,7 +232,7 @@ def report(module: Any, total: Result, tier: str, seed: int, wall: float, n_item
     for idx, n in sorted(matched_entries.items()):
         print(f"KNOWN-FINDING: property={pid} {known[idx]['text']} [{n} enumerated cases]")
     # replay-before-report: the same item must reproduce the same signature twice
-    REPLAY_DIR.mkdir(exist_ok=True)
+    REPLAY_DIR.mkdir(exist_ok=True, parents=True)
     for old in REPLAY_DIR.glob(f"{pid}-*.json"):
         old.unlink()
     confirmed = []
@@ -288,7 +291,7 @@ def report(module: Any, total: Result, tier: str, seed: int, wall: float, n_item
         "wall_s": round(wall, 2),
         "violations": len(confirmed),
     }
-    EVIDENCE_DIR.mkdir(exist_ok=True)
+    EVIDENCE_DIR.mkdir(exist_ok=True, parents=True)
     (EVIDENCE_DIR / f"{pid}.json").write_text(json.dumps(evidence, indent=1, sort_keys=True))
     print(
         f"{pid} tier={tier} seed={seed} items={done}/{n_items} evaluations={total.evaluations} states={total.states} "
